@@ -273,12 +273,74 @@ def overlap_case(run, seed, idx, mods):
         V("sparse_overlaps", "sparse_overlaps found %d shared pixels, dense comparison %d" % (npx, int(both.sum())))
 
 
+def pairrow_case(run, seed, idx, sparseframe):
+    """properties.pairrow: overlaps between consecutive frames of a labelled sparse scan, as stored by the real consumer
+    (one overlaps_linear object is called for every frame pair and all answers are kept)"""
+    import os, tempfile, shutil, contextlib, io
+    from ..common import WORK
+    from ImageD11.sinograms import properties
+    r = rng(seed, "C14", "pairrow", idx)
+    shape = [(12, 10), (32, 32), (50, 40)][idx % 3]
+    nfr = int(r.integers(3, 9))
+    frames = []
+    for k in range(nfr):
+        m = r.random(shape) < float(r.choice([0.15, 0.35, 0.6]))
+        if k == 2 and idx % 2:
+            m[:] = False                      # an empty frame in the middle
+        img = np.where(m, r.random(shape) * 100 + 1, 0).astype(np.float32)
+        frames.append((m, img))
+    desc = dict(index=idx, kind="pairrow", shape=shape, nframes=nfr)
+    run.case(("pairrow", shape, nfr, idx), nontrivial=True, sample=desc if idx < 2 else None)
+    os.makedirs(os.path.join(WORK, "tmp"), exist_ok=True)
+    d = tempfile.mkdtemp(prefix="c14p_", dir=os.path.join(WORK, "tmp"))
+    try:
+        fn = os.path.join(d, "scan.h5")
+        omega = np.arange(nfr) * 0.5
+        imgs.write_sparse_scan(fn, frames, omega=omega)
+        sc = sparseframe.SparseScan(fn, "1.1")
+        sc.cplabel(threshold=0.5, countall=False)
+        with contextlib.redirect_stdout(io.StringIO()):
+            pairs = properties.pairrow(sc, 7)
+        run.count("pairrow_runs")
+        # dense label images from the scan's own labels
+        dense = []
+        for k in range(nfr):
+            s0, e0 = sc.ipt[k], sc.ipt[k + 1]
+            lab = np.zeros(shape, np.int64)
+            lab[sc.row[s0:e0], sc.col[s0:e0]] = sc.labels[s0:e0]
+            dense.append(lab)
+        for k in range(1, nfr):
+            if sc.nnz[k] == 0 or sc.nnz[k - 1] == 0:
+                continue
+            key = (7, k - 1, 7, k)
+            if key not in pairs:
+                run.violation("pairrow:missing", "frame pair %r missing from pairrow result" % (key,), desc)
+                return
+            ne, rcl = pairs[key]
+            both = (dense[k - 1] > 0) & (dense[k] > 0)
+            want = {}
+            for a, b in zip(dense[k - 1][both].tolist(), dense[k][both].tolist()):
+                want[(a, b)] = want.get((a, b), 0) + 1
+            got = {(int(a), int(b)): int(c) for a, b, c in (rcl[:ne] if ne else [])}
+            run.count("pairrow_pairs_checked")
+            if got != want or (ne or 0) != len(want):
+                run.violation("pairrow:stored-overlaps",
+                              "overlaps stored by properties.pairrow for frames %d/%d differ from the brute-force count "
+                              "(%d pairs stored, %d expected)" % (k - 1, k, len(got), len(want)), dict(desc, frame=k))
+                return
+    finally:
+        shutil.rmtree(d, ignore_errors=True)
+
+
 def check(run, replay=None):
     from ImageD11 import cImageD11, sparseframe
     mods = (cImageD11, sparseframe)
     if replay is not None:
         cs = replay["case"]
-        (overlap_case if cs["kind"] == "overlap" else roundtrip_case)(run, replay["seed"], cs["index"], mods)
+        if cs["kind"] == "pairrow":
+            pairrow_case(run, replay["seed"], cs["index"], sparseframe)
+        else:
+            (overlap_case if cs["kind"] == "overlap" else roundtrip_case)(run, replay["seed"], cs["index"], mods)
         run.nontrivial.update(["replay", "replay2"])
         return
     nr, no = (330, 400) if run.tier == "quick" else (20000, 30000)
@@ -286,6 +348,9 @@ def check(run, replay=None):
         roundtrip_case(run, run.seed, i, mods)
     for i in range(no):
         overlap_case(run, run.seed, i, mods)
+    for i in range(20 if run.tier == "quick" else 600):
+        pairrow_case(run, run.seed, i, sparseframe)
+    run.require_counter("pairrow_pairs_checked", 20)
     run.require_counter("roundtrips", 100)
     run.require_counter("sort_calls", 50)
     run.require_counter("overlap_cases", 100)
